@@ -673,4 +673,115 @@ def serveReq (srv : Server) (who : Option Profile) (upstream : Host â†’ QType â†
     (host : Host) (qt : QType) : Msg :=
   serve (envOf srv who upstream) host qt
 
+/-! ## Faults on the way (`Middleware.Wrap`)
+
+The next handler is called for EVERY request verdict (a blocked or rewritten query is still resolved:
+the query log wants the country of the real answer), and only after the request has been filtered and
+the context has been found alive.  When the context is dead at that point, or when the next handler
+returns an error, `Wrap` returns that error and nothing has been written: the server itself then
+answers SERVFAIL without records.  `none` below is that outcome. -/
+
+/-- The name the next handler is asked for: the rewritten one after a CNAME rewrite (or a safety
+filter's replacement host), the original one otherwise. -/
+def askedName (e : Env) (host : Host) (qt : QType) : Host :=
+  match (match selectFilter e.sw e.prof e.grp with
+         | some c => filterRequest c host qt | Option.none => Verdict.none) with
+  | .modReq _ t => t
+  | _ => host
+
+/-- What the client gets from the main middleware when the context may have been cancelled while the
+request was being filtered and the upstream may fail (`up â€¦ = none`). -/
+def serveFaulty (e : Env) (cancelled : Bool) (up : Host â†’ QType â†’ Option Msg)
+    (host : Host) (qt : QType) : Option Msg :=
+  if cancelled then Option.none
+  else
+    match up (askedName e host qt) qt with
+    | Option.none => Option.none
+    | some _ =>
+      some (serve { e with upstream := fun h q => (up h q).getD { rcode := 2, ans := [], soa := Option.none } } host qt)
+
+/-! ## Production wiring: environment, configuration file, server groups
+
+`internal/cmd`: `builder.initHashPrefixFilters`, `initFilterStorage`, `initFilteringGroups`,
+`initMsgConstructor`; `dnssvc.newHandlersForServers`. -/
+
+/-- The `*_ENABLED` switches of the process environment. -/
+structure EnvSw where
+  adult : Bool := true
+  sb : Bool := true
+  nrd : Bool := true
+  svc : Bool := true
+  gss : Bool := true
+  yss : Bool := true
+deriving Repr, DecidableEq
+
+def emptyHash (f : HashFilter) : HashFilter := { f with hosts := [] }
+
+/-- The filter storage the builder creates from what the URLs serve (`st`): a filter that is
+switched off in the environment is not created at all (a nil filter is skipped by
+`composite.New`, a nil service index by `setParental`), which is the same as one that holds nothing;
+the dangerous-domain AND the newly-registered filter get `safe_browsing.block_host`, the adult filter
+gets `adult_blocking.block_host`. -/
+def builtStorage (sw : EnvSw) (sbHost adHost : Host Ã— Option (Bool Ã— String)) (st : Storage) : Storage :=
+  { st with
+    sb := if sw.sb then { hosts := st.sb.hosts, repl := sbHost.1, replIP := sbHost.2 } else emptyHash st.sb
+    newReg := if sw.nrd then { hosts := st.newReg.hosts, repl := sbHost.1, replIP := sbHost.2 } else emptyHash st.newReg
+    adult := if sw.adult then { hosts := st.adult.hosts, repl := adHost.1, replIP := adHost.2 } else emptyHash st.adult
+    svcs := if sw.svc then st.svcs else []
+    genSS := if sw.gss then st.genSS else []
+    ytSS := if sw.yss then st.ytSS else [] }
+
+/-- A configuration in which everything the environment switches off is switched off. -/
+def maskPCfg (sw : EnvSw) (p : PCfg) : PCfg :=
+  { p with
+    adultOn := p.adultOn && sw.adult
+    dangerousOn := p.dangerousOn && sw.sb
+    nrdOn := p.nrdOn && sw.nrd
+    svcIds := if sw.svc then p.svcIds else []
+    gssOn := p.gssOn && sw.gss
+    yssOn := p.yssOn && sw.yss }
+
+/-- One entry of `filtering_groups` in the configuration file, field by field. -/
+structure GroupYaml where
+  rlEnabled : Bool := false
+  rlIds : List Nat := []
+  parEnabled : Bool := false
+  blockAdult : Bool := false
+  generalSafeSearch : Bool := false
+  youtubeSafeSearch : Bool := false
+  sbEnabled : Bool := false
+  blockDangerous : Bool := false
+  blockNewlyRegistered : Bool := false
+deriving Repr
+
+/-- `filteringGroups.toInternal`: a group has no custom rules, no blocked services and no pause
+schedule. -/
+def GroupYaml.toPCfg (g : GroupYaml) : PCfg :=
+  { isClient := false, customOn := false, customRules := []
+    parentalOn := g.parEnabled, pause := Option.none
+    adultOn := g.blockAdult, gssOn := g.generalSafeSearch, yssOn := g.youtubeSafeSearch
+    svcIds := []
+    ruleListOn := g.rlEnabled, listIds := g.rlIds
+    sbOn := g.sbEnabled, dangerousOn := g.blockDangerous, nrdOn := g.blockNewlyRegistered }
+
+/-- Filtering groups by ID and, for every server group, the ID it names. -/
+structure Wiring where
+  groups : List (String Ã— GroupYaml) := []
+  serverGroups : List (String Ã— String) := []
+deriving Repr
+
+/-- `newHandlersForServers`: `c.FilteringGroups[srvGrp.FilteringGroup]`. -/
+def Wiring.groupOf (w : Wiring) (sg : String) : Option PCfg :=
+  (w.serverGroups.lookup sg).bind fun id => (w.groups.lookup id).map GroupYaml.toPCfg
+
+/-- The server a request to a server of group `sg` meets: the common storage, the common message
+constructor (`initMsgConstructor`: always null IP, `filters.response_ttl`) and the group's own
+configuration. -/
+def Wiring.server (w : Wiring) (st : Storage) (respTtl : Int) (sg : String) : Option Server :=
+  (w.groupOf sg).map fun g => { st := st, mode := .nullIP, ttl := durSecs respTtl, grp := g }
+
+/-- Replace the settings of one filtering group. -/
+def Wiring.setGroup (w : Wiring) (id : String) (g : GroupYaml) : Wiring :=
+  { w with groups := w.groups.map fun p => if p.1 == id then (p.1, g) else p }
+
 end Agd.Filter
